@@ -370,7 +370,7 @@ func propC17(w *World, r *Report) {
 	RunShortRead(w, r, w.LibFuncs())
 	r.Floor("shortread", 1)
 	// --- skipisseek: Discard is a relative seek
-	r.Rule("skipisseek: (*Parser).Discard never reads (no call that can reach ReadBytes or the underlying reader's Read) and every normal return passes the result of SeekPos: a skip moves the position and cannot fail for lack of input, exactly like the absolute seek to the same offset")
+	r.Rule("skipisseek: (*Parser).SeekPos and (*Parser).Discard never read (no call that can reach ReadBytes or the underlying reader's Read) and every normal return passes the result of SeekPos: a skip moves the position and cannot fail for lack of input, exactly like the absolute seek to the same offset")
 	if dfn := w.Func("(*parser.Parser).Discard"); dfn == nil {
 		r.Fatal("(*parser.Parser).Discard does not resolve")
 	} else {
@@ -404,7 +404,34 @@ func propC17(w *World, r *Report) {
 			r.OK("skipisseek", key, w.Pos(dfn.Pos()), "Discard only computes the target and calls SeekPos")
 		}
 	}
-	r.Floor("skipisseek", 1)
+	// --- seeknoread: the absolute seek does not consume input either
+	if sfn := w.Func("(*parser.Parser).SeekPos"); sfn == nil {
+		r.Fatal("(*parser.Parser).SeekPos does not resolve")
+	} else {
+		key := r.MkKey("skipisseek", fnName(sfn), "callees")
+		bad := ""
+		for _, b := range sfn.Blocks {
+			for _, in := range b.Instrs {
+				c, ok := in.(*ssa.Call)
+				if !ok {
+					continue
+				}
+				cal := c.Call.StaticCallee()
+				switch {
+				case cal == nil && c.Call.IsInvoke() && c.Call.Method.Name() != "Seek":
+					bad = "calls " + c.Call.Method.Name() + " on the underlying reader at " + w.Pos(c.Pos())
+				case cal != nil && strings.HasSuffix(fnPkgPath(cal), "/parser") && fnName(cal) != "(*parser.Parser).Pos" && fnName(cal) != "(*parser.Parser).Size":
+					bad = "calls " + fnName(cal) + " at " + w.Pos(c.Pos())
+				}
+			}
+		}
+		if bad != "" {
+			r.Fail("skipisseek", key, w.Pos(sfn.Pos()), "SeekPos "+bad+": a seek that is served by reading fails (or silently stays behind) at the end of the input, where a seek to any offset must succeed and move the position", nil)
+		} else {
+			r.OK("skipisseek", key, w.Pos(sfn.Pos()), "SeekPos moves the window or re-seeks the underlying reader; it never reads")
+		}
+	}
+	r.Floor("skipisseek", 2)
 	r.Floor("whomaywrite", 20)
 	r.Floor("errnodata", 5)
 	r.Floor("viareadbytes", 5)
